@@ -757,6 +757,137 @@ def count_ones(ex, a):
     return bin(a).count('1')
 
 
+def _mk_bitcount(kind, ty):
+    w = W[ty]
+
+    def f(ex, a):
+        if is_sym(a):
+            A = bv(a, w)
+            res = z3.BitVecVal(w, 32)
+            rng = range(w) if kind == 'leading_zeros' else range(w - 1, -1, -1)
+            # scan from the far end so that the bit nearest to the counted end wins
+            for i in rng:
+                cnt = (w - 1 - i) if kind == 'leading_zeros' else i
+                res = z3.If(z3.Extract(i, i, A) == 1, z3.BitVecVal(cnt, 32), res)
+            return z3.simplify(res)
+        a &= (1 << w) - 1
+        if a == 0:
+            return w
+        if kind == 'leading_zeros':
+            return w - a.bit_length()
+        return (a & -a).bit_length() - 1
+    return f
+
+
+def _mk_unsigned_misc(kind, ty):
+    w = W[ty]
+    mask = (1 << w) - 1
+
+    def f(ex, a, b=None):
+        if kind == 'is_power_of_two':
+            if is_sym(a):
+                A = bv(a, w)
+                return z3.And(A != 0, (A & (A - 1)) == 0)
+            return a != 0 and (a & (a - 1)) == 0
+        if kind == 'abs_diff':
+            if is_sym(a) or is_sym(b):
+                A, B = bv(a, w), bv(b, w)
+                return z3.If(z3.ULT(A, B), B - A, A - B)
+            return abs(a - b)
+        if kind == 'div_ceil':
+            if is_sym(b):
+                raise Unsupported('div_ceil by a symbolic divisor')
+            if b == 0:
+                raise Panic('attempt to divide by zero')
+            if is_sym(a):
+                A = bv(a, w)
+                q = z3.UDiv(A, z3.BitVecVal(b, w))
+                return z3.simplify(z3.If(z3.URem(A, z3.BitVecVal(b, w)) != 0, q + 1, q))
+            return -(-a // b)
+        if kind == 'pow2_shift':
+            raise Unsupported(kind)
+        raise Unsupported(kind)
+    return f
+
+
+for _t in ('u8', 'u16', 'u32', 'u64', 'usize', 'i32', 'i64'):
+    REG['%s::leading_zeros' % _t] = _mk_bitcount('leading_zeros', _t)
+    REG['%s::trailing_zeros' % _t] = _mk_bitcount('trailing_zeros', _t)
+for _t in ('u8', 'u16', 'u32', 'u64', 'usize'):
+    REG['%s::is_power_of_two' % _t] = _mk_unsigned_misc('is_power_of_two', _t)
+    REG['%s::abs_diff' % _t] = _mk_unsigned_misc('abs_diff', _t)
+    REG['%s::div_ceil' % _t] = _mk_unsigned_misc('div_ceil', _t)
+
+
+def _mk_bytes(ty, order, to):
+    w = W[ty]
+    nb = w // 8
+
+    def tob(ex, a):
+        if is_sym(a):
+            A = bv(a, w)
+            bs = [z3.simplify(z3.Extract(8 * i + 7, 8 * i, A)) for i in range(nb)]
+        else:
+            bs = [(a >> (8 * i)) & 0xff for i in range(nb)]
+        return bs[::-1] if order == 'be' else bs
+
+    def fromb(ex, arr):
+        items = arr.items if isinstance(arr, VecV) else list(arr)
+        if len(items) != nb:
+            raise Unsupported('from_%s_bytes on %d bytes' % (order, len(items)))
+        bs = items if order == 'le' else items[::-1]
+        if any(is_sym(x) for x in bs):
+            return z3.simplify(z3.Concat(*[bv(x, 8) for x in bs[::-1]])) if nb > 1 else bv(bs[0], 8)
+        return sum(b << (8 * i) for i, b in enumerate(bs))
+    return tob if to else fromb
+
+
+for _t in ('u16', 'u32', 'u64', 'usize', 'i32', 'i64'):
+    for _o in ('be', 'le'):
+        REG['%s::to_%s_bytes' % (_t, _o)] = _mk_bytes(_t, _o, True)
+        REG['%s::from_%s_bytes' % (_t, _o)] = _mk_bytes(_t, _o, False)
+
+
+@nat('RangeInclusive::new')
+def range_inclusive_new(ex, lo, hi): return Adt('RangeInclusive', 0, [lo, hi])
+
+
+@nat('RangeInclusive::start', 'RangeInclusive::end', want_callee=True)
+def range_inclusive_bound(ex, callee, r):
+    rg = D(ex, r)
+    return Ref(Cell(rg.fields[0 if callee.rstrip('>').endswith('start') or '::start' in callee else 1]))
+
+
+def _range_contains(inclusive):
+    def f(ex, callee, r, x):
+        rg = D(ex, r)
+        v = D(ex, x) if isinstance(x, Ref) else x
+        g = None
+        for t in re.findall(r'<\s*&?\s*(\w+)\s*>', callee):
+            if t in W:
+                g = t
+        if g is None:
+            raise Unsupported('Range::contains on ' + callee)
+        w, sg = W[g], g in SIGNED
+        lo, hi = rg.fields[0], rg.fields[1]
+        if is_sym(v) or is_sym(lo) or is_sym(hi):
+            V, L, H = bv(v, w), bv(lo, w), bv(hi, w)
+            ge = (V >= L) if sg else z3.UGE(V, L)
+            le = ((V <= H) if sg else z3.ULE(V, H)) if inclusive else ((V < H) if sg else z3.ULT(V, H))
+            return simp_bool(z3.And(ge, le))
+        if sg:
+            v, lo, hi = to_signed(v, w), to_signed(lo, w), to_signed(hi, w)
+        return lo <= v <= hi if inclusive else lo <= v < hi
+    f.want_callee = True
+    return f
+
+
+REG['RangeInclusive::contains'] = _range_contains(True)
+REG['Range::contains'] = _range_contains(False)
+REG['<RangeInclusive as RangeBounds>::contains'] = _range_contains(True)
+REG['<Range as RangeBounds>::contains'] = _range_contains(False)
+
+
 @nat('i64::saturating_abs')
 def i64_saturating_abs(ex, a):
     if is_sym(a):
@@ -815,6 +946,62 @@ def cmp_minmax(ex, callee, a, b):
     if g in W:
         return _minmax(kind, g)(ex, a, b)
     raise Unsupported('cmp::min/max on ' + str(g))
+
+
+def _int_convert(ex, v, src, dst, checked):
+    """integer conversion src -> dst on the engine's value representation (concrete: unsigned two's complement python int;
+    symbolic: bit-vector of the source width).  checked: TryFrom semantics (Err when the value does not fit)."""
+    ws, wd = W[src], W[dst]
+    if v.__class__ is bool:
+        v = int(v)
+    if is_sym(v):
+        if z3.is_bool(v):
+            v = z3.If(v, z3.BitVecVal(1, 8), z3.BitVecVal(0, 8)); ws = 8; src = 'u8'
+        ws = v.size()
+        wide = max(ws, wd) + 1
+        ext = (lambda x, w, sg: z3.SignExt(w - x.size(), x) if sg else z3.ZeroExt(w - x.size(), x))
+        big = ext(v, wide, src in SIGNED)
+        out = z3.simplify(z3.Extract(wd - 1, 0, big))
+        if not checked:
+            return out
+        back = ext(out, wide, dst in SIGNED)
+        fits = ex.branch(simp_bool(back == big))
+        return OK(out) if fits else ERR(Opaque('TryFromIntError'))
+    val = v - (1 << ws) if (src in SIGNED and v >> (ws - 1)) else v
+    lo, hi = (-(1 << (wd - 1)), (1 << (wd - 1)) - 1) if dst in SIGNED else (0, (1 << wd) - 1)
+    if checked and not (lo <= val <= hi):
+        return ERR(Opaque('TryFromIntError'))
+    out = val & ((1 << wd) - 1)
+    return OK(out) if checked else out
+
+
+def _conv_types(callee):
+    """(self type, trait argument) of `<A as From<B>>::from` style callees"""
+    m = re.match(r'<\s*([\w:]+)\s+as\s+(?:[\w:]+::)?(From|Into|TryFrom|TryInto)<\s*([\w:]+)\s*>>', callee)
+    if not m:
+        return None
+    return m.group(1).split('::')[-1], m.group(2), m.group(3).split('::')[-1]
+
+
+def _mk_conv(default):
+    def conv(ex, callee, v):
+        t = _conv_types(callee)
+        if t is None or t[0] not in W or t[2] not in W:
+            if default is None:
+                raise Unsupported('integer conversion ' + callee)
+            return default(ex, v)
+        a, tr, b = t
+        src, dst = (b, a) if tr in ('From', 'TryFrom') else (a, b)
+        return _int_convert(ex, v, src, dst, tr in ('TryFrom', 'TryInto'))
+    conv.want_callee = True
+    return conv
+
+
+for _t in W:
+    REG['<%s as From>::from' % _t] = _mk_conv(lambda ex, v: v)
+    REG['<%s as Into>::into' % _t] = _mk_conv(lambda ex, v: v)
+    REG['<%s as TryFrom>::try_from' % _t] = _mk_conv(None)
+    REG['<%s as TryInto>::try_into' % _t] = _mk_conv(None)
 
 
 @nat('f64::to_bits')
